@@ -247,3 +247,45 @@ func refv4Decode(b []byte) (*refv4.Packet, bool) {
 	return p, why == refv4.OK
 }
 func refv4Canonical(c gen.V4Case) []byte { return refv4.Canonical(c.Ref()) }
+
+// deepRelay wraps inner in depth relay levels (hop counts 0..depth-1 from the inside out); with
+// opts every level also carries an interface-id option.
+func deepRelay(depth int, inner []byte, opts bool) []byte {
+	cur := append([]byte{}, inner...)
+	for d := 0; d < depth; d++ {
+		hdr := make([]byte, 34)
+		hdr[0] = 12
+		hdr[1] = byte(d)
+		hdr[17] = byte(d + 1)
+		hdr[33] = byte(d + 2)
+		lvl := append(hdr, 0, 9, byte(len(cur)>>8), byte(len(cur)))
+		lvl = append(lvl, cur...)
+		if opts {
+			lvl = append(lvl, 0, 18, 0, 2, 'i', byte(d))
+		}
+		cur = lvl
+	}
+	return cur
+}
+
+// deepInners are small inner messages that put one "interesting" option each behind a relay chain.
+func deepInners() [][]byte {
+	v4 := append(v4Prefix(), 53, 1, 1, 255)
+	dv4 := append([]byte{20, 0, 0, 0, 0, 87, byte(len(v4) >> 8), byte(len(v4))}, v4...)
+	return [][]byte{
+		{1, 1, 2, 3},
+		{1, 1, 2, 3, 0, 1, 0, 10, 0, 2, 0, 0, 4, 0xf7, 'S', 'N', '1', '2', 0, 16, 0, 23, 0, 0, 4, 0xf7, 0, 17, '1', '2', '7', '1', '-', '2', '3', '4', '2', '2', 'Z', '1', '1', '-', '1', '2', '3'},
+		dv4,
+		{7, 9, 9, 9, 0, 3, 0, 40, 0, 0, 0, 1, 0, 0, 0, 10, 0, 0, 0, 20, 0, 5, 0, 24, 0x20, 1, 0xd, 0xb8, 0, 0, 0, 0, 0, 0, 0, 0, 0, 0, 0, 1, 0, 0, 0, 30, 0, 0, 0, 40, 0, 24, 0, 9, 3, 'f', 'o', 'o', 0, 1, 'x', 0xc0, 0},
+		{3, 5, 5, 5, 0, 17, 0, 12, 0, 0, 0, 9, 0, 1, 0, 4, 'a', 'b', 'c', 'd', 0, 79, 0, 10, 0, 27, 0, 0x11, 0x22, 0xff, 0xfe, 0x33, 0x44, 0x55},
+	}
+}
+
+// deepDepths: every relay depth up to 40, then a sparser tail up to 100.
+func deepDepths() []int {
+	var d []int
+	for i := 1; i <= 40; i++ {
+		d = append(d, i)
+	}
+	return append(d, 44, 48, 56, 63, 64, 65, 80, 100)
+}
